@@ -658,7 +658,9 @@ def run_programs(out, progs, enforce, label, focus=None, prop='*'):
            'PNC_E_ISO': '1' if 'iso' in enforce else '0',
            'PNC_E_VAL': '1' if 'val' in enforce else '0',
            'PNC_E_PROP': prop}
-    verdicts = validate_traces('PncCore_Trace', traces, out, shard=250,
+    # one shard per core (a TLC start costs about a second)
+    shard = max(30, (len(traces) + 15) // 16)
+    verdicts = validate_traces('PncCore_Trace', traces, out, shard=shard,
                                env=env, label=label, timeout=1500)
     settle(out, traces, verdicts, None)
     return traces
@@ -693,13 +695,18 @@ def mc_programs(out, prop, tier):
     `prop`) and return the emitted programs whose last step concerns `prop`."""
     progs = []
     depth = 1 if tier == 'quick' else 2
-    for tmpl in ('M1', 'M2'):
+    cfgp = 'PncCore_MC_%s.cfg' % (prop if prop != 'C05' else 'C01')
+
+    def one(tmpl):
         env = {'PNC_DEPTH': depth, 'PNC_LAWDEPTH': 1, 'PNC_EMIT': '1',
                'PNC_TEMPLATE': tmpl}
-        cfgp = 'PncCore_MC_%s.cfg' % (prop if prop != 'C05' else 'C01')
-        r = need_ok(run_tlc('PncCore_MC', cfg=cfgp, workers=NCPU_MC,
-                            timeout=3000, env=env, heap='8g'),
-                    'PncCore_MC %s %s' % (prop, tmpl))
+        return run_tlc('PncCore_MC', cfg=cfgp, workers=max(1, NCPU_MC // 2),
+                       timeout=3000, env=env, heap='8g')
+    import concurrent.futures as cf
+    with cf.ThreadPoolExecutor(max_workers=2) as ex:
+        results = list(ex.map(one, ('M1', 'M2')))
+    for tmpl, r in zip(('M1', 'M2'), results):
+        r = need_ok(r, 'PncCore_MC %s %s' % (prop, tmpl))
         out.add_tlc('PncCore_MC(%s) template %s depth %d' % (prop, tmpl,
                                                             depth), r,
                     'invariants of %s' % cfgp)
